@@ -302,7 +302,9 @@ theorem frameStep_ok (s : DecSt) (f : FrameIn) (hcfg : Configured s) (hinv : Inv
       refine allIn_append (allIn_append (allIn_append (allIn_append (fun e he => by rw [← hxcfg]; exact hcore.2 e he) (allIn_append hr1 hu.1))
         (allIn_append hshift hpl)) hg) ?_
       apply allIn_ite
-      · intro _; exact hxq
+      · intro _
+        refine allIn_append hxq ?_
+        apply allIn_wrt; intro _; simp only [Arr.size]; omega
       · intro _; exact allIn_nil _
     · -- invariant
       have hS : 0 ≤ s.cfg.subfr ∧ s.cfg.subfr ≤ 80 := by
